@@ -1,9 +1,48 @@
-(* C36 — statements only; grows with B/*Proofs.v *)
-From Verif Require Import Bytes Keys Consts Spec Lsm Sys.
-From Verif Require LsmProofs SysProofs.
+(* C36 — Managed mode honors caller-chosen timestamps. Statements only. *)
+From Verif Require Import Bytes Keys Consts Spec Lsm Compact Sys.
+From Verif Require CompactProofs GetProofs ManagedProofs BatchProofs SysProofs.
 Open Scope N_scope.
 
-Theorem C36_pending_is_last_write : forall x es k,
-  klookup (x_pend (SysProofs.modifies x es)) k = SysProofs.last_write x es k (klookup (x_pend x) k).
-Proof. exact SysProofs.pending_is_last_write. Qed.
-Print Assumptions C36_pending_is_last_write.
+(* commits use exactly the caller's commit timestamp; explicit per-entry versions are kept *)
+Theorem C36_commit_ts_exact : forall s t x cts r ts s',
+  s_managed s = true -> txn_commit s t x cts = (r, ts, s') -> r = 0 -> x_pend x <> [] ->
+  ts = cts
+  /\ s_writes s' = s_writes s ++ commit_entries x cts
+  /\ s_next s' = s_next s
+  /\ (forall e, In e (commit_entries x cts) ->
+        exists e0, (In e0 (x_dups x) \/ In e0 (map snd (x_pend x))) /\ e = stamp cts e0
+                   /\ (e_ver e0 = 0 -> e_ver e = cts) /\ (e_ver e0 <> 0 -> e = e0)).
+Proof. exact ManagedProofs.managed_commit_ts_exact. Qed.
+Print Assumptions C36_commit_ts_exact.
+
+(* a read at any chosen timestamp returns the newest stored version at or below it, over every
+   memtable and table (no dependence on the mode) *)
+Theorem C36_read_is_newest_stored : forall d k ts,
+  GetProofs.lsm_wf d -> db_get d k ts = CompactProofs.newest (GetProofs.all_entries d) k ts.
+Proof. exact GetProofs.db_get_newest. Qed.
+Print Assumptions C36_read_is_newest_stored.
+
+(* for the same key@version the later call of a transaction wins (after the repair of F3) *)
+Theorem C36_same_version_later_wins : forall x0 es ts s k v,
+  BatchProofs.pend_ok x0 -> x_pend x0 = [] -> x_dups x0 = [] ->
+  let x := SysProofs.modifies x0 es in
+  BatchProofs.find_kv (fold_left mt_put (commit_entries x ts) s) k v =
+  match BatchProofs.last_match (fun e => BatchProofs.kv_match k v (stamp ts e)) (BatchProofs.accepted_calls x0 es) with
+  | Some e => Some (stamp ts e)
+  | None => BatchProofs.find_kv s k v
+  end.
+Proof. exact BatchProofs.commit_later_call_wins. Qed.
+Print Assumptions C36_same_version_later_wins.
+
+(* Full statement "a read at any timestamp sees exactly the newest WRITE at or below it, for
+   arbitrary (non-monotonic) commit timestamps" is FALSE of the faithful model (finding F10):
+   a delete at 7 compacted away, then an older version 5 written: the read at 9 returns it.
+   What holds: the statement for histories whose versions per key never decrease — that is
+   C12_all_histories / C01_get_equals_spec (normal mode is the special case the proof covers). *)
+Theorem C36_reads_refuted :
+  let '(bad, s) := exec (init_sys true false 1 2 1) ManagedProofs.f10_ops 0 in
+  bad = None
+  /\ db_get (s_db s) ManagedProofs.f10_key 9 = Some (mkE ManagedProofs.f10_key 5 0 0 0 [5])
+  /\ vis (s_writes s) ManagedProofs.f10_key 9 0 = None.
+Proof. exact ManagedProofs.managed_nonmonotonic_refuted. Qed.
+Print Assumptions C36_reads_refuted.
